@@ -320,10 +320,16 @@ func (a *Allocation) ListChannelBindings() []*ChannelBind {
 }
 
 // Refresh updates the allocations lifetime.
-func (a *Allocation) Refresh(lifetime time.Duration) {
-	if !a.lifetimeTimer.Reset(lifetime) {
-		a.log.Errorf("Failed to reset allocation timer for %v", a.fiveTuple)
+func (a *Allocation) Refresh(lifetime time.Duration) bool {
+	if a.lifetimeTimer.Reset(lifetime) {
+		return true
 	}
+	// The timer has fired already (the allocation has expired and is being deleted) or has
+	// been stopped by Close: a refresh comes too late, and must not re-arm the dead timer.
+	a.lifetimeTimer.Stop()
+	a.log.Errorf("Failed to reset allocation timer for %v", a.fiveTuple)
+
+	return false
 }
 
 // AddressFamily returns the address family of the allocation (RFC 6156).
